@@ -87,7 +87,9 @@ func inspectBody(body ast.Node, f func(ast.Node) bool) {
 }
 
 // inspectDeep walks a function body including nested literals.
-func inspectDeep(body ast.Node, f func(ast.Node) bool) { ast.Inspect(body, func(n ast.Node) bool { return n != nil && f(n) }) }
+func inspectDeep(body ast.Node, f func(ast.Node) bool) {
+	ast.Inspect(body, func(n ast.Node) bool { return n != nil && f(n) })
+}
 
 // callsIn lists the calls of fb (own body only, or including literals when deep).
 func callsIn(fb *FuncBody, deep bool) []*ast.CallExpr {
@@ -121,25 +123,25 @@ func fieldSel(info *types.Info, e ast.Expr, pkg, typ, field string) bool {
 type Anchors struct {
 	P *Prog
 
-	Run, RunTask, Status, Setup          *FuncBody
-	ListTasks, ListTaskNames, ToEditor   *FuncBody
-	GetTaskList, GetTask, FindMatching   *FuncBody
-	CompiledTask                         *FuncBody // the function that builds the compiled ast.Task
-	GetVariables                         *FuncBody
-	CmdRunner, DepRunner, Dedup          *FuncBody
-	BodyClosure                          *FuncBody // literal handed to the dedup function by RunTask
-	DedupCall                            *ast.CallExpr
-	DeferRunner                          *FuncBody
-	StatusOnError, Mkdir                 *FuncBody
-	Acquire, Release                     *FuncBody
-	HandleDynamicVar                     *FuncBody
-	Preconditions                        *FuncBody
-	RequiredVars, AllowedValues          *FuncBody
-	PlatformTest                         *FuncBody
-	GetHash                              *FuncBody
-	RunCommandObj                        types.Object // execext.RunCommand
-	Missing                              []string
-	reachCmd                             map[*types.Func]bool
+	Run, RunTask, Status, Setup        *FuncBody
+	ListTasks, ListTaskNames, ToEditor *FuncBody
+	GetTaskList, GetTask, FindMatching *FuncBody
+	CompiledTask                       *FuncBody // the function that builds the compiled ast.Task
+	GetVariables                       *FuncBody
+	CmdRunner, DepRunner, Dedup        *FuncBody
+	BodyClosure                        *FuncBody // literal handed to the dedup function by RunTask
+	DedupCall                          *ast.CallExpr
+	DeferRunner                        *FuncBody
+	StatusOnError, Mkdir               *FuncBody
+	Acquire, Release                   *FuncBody
+	HandleDynamicVar                   *FuncBody
+	Preconditions                      *FuncBody
+	RequiredVars, AllowedValues        *FuncBody
+	PlatformTest                       *FuncBody
+	GetHash                            *FuncBody
+	RunCommandObj                      types.Object // execext.RunCommand
+	Missing                            []string
+	reachCmd                           map[*types.Func]bool
 }
 
 func (a *Anchors) need(name string, fb *FuncBody) *FuncBody {
@@ -479,7 +481,6 @@ func (a *Anchors) returnedFuncOps(fb *FuncBody) [][]string {
 	}
 	return out
 }
-
 
 // runTaskWrapper: a declared function of package task every return of which yields, as its error, the result of RunTask
 // or of another such wrapper (a helper that "runs one dependency / one call").
